@@ -28,110 +28,133 @@ func propC13(c *Ctx) {
 	// (`if !ig.declares(l) { return }`): both tests are located on the inlined
 	// view, and a helper contributes the edges on which its result is true
 	// when "true" implies the test passed inside it.
-	reg := NewRegion(pl)
-	aff := &affEnv{reg: reg}
-	// count test: len(Topics) == numIndexed + 1 in any arrangement (affine comparison)
-	isCountTest := func(b *ssa.BinOp) bool {
-		if b.Op != token.NEQ && b.Op != token.EQL {
-			return false
-		}
-		d := aff.Of(b.X).sub(aff.Of(b.Y))
-		var kLen, kNum int64
-		nAtoms := 0
-		for a, k := range d.t {
-			if k == 0 {
-				continue
-			}
-			nAtoms++
-			if x, ok := aff.lens[a]; ok && isTopicsLoad(x) {
-				kLen = k
-			} else if v, ok := aff.vals[a]; ok && isLoadOfField(v, fNumIdx) {
-				kNum = k
-			}
-		}
-		return nAtoms == 2 && ((kLen == 1 && kNum == -1 && d.c == -1) || (kLen == -1 && kNum == 1 && d.c == 1))
+	// gatesOf: the edges of g (with its single-use helpers inlined) on which the count test / the hash
+	// test are known to have passed; whether the hash test is itself behind the count test
+	type gateInfo struct {
+		countEq, hashEq []Edge
+		hashCall        *ssa.Call
+		before          bool
 	}
-	type gate struct {
-		fn *ssa.Function
-		ok []Edge // edges (in fn) on which the test passed
-	}
-	var countG, hashG []gate
-	for _, f := range reg.Funcs() {
-		ne, eq := cmpEdges(f, func(b *ssa.BinOp) bool { return b.Op == token.NEQ && isCountTest(b) })
-		_ = ne
-		e2, _ := cmpEdges(f, func(b *ssa.BinOp) bool { return b.Op == token.EQL && isCountTest(b) })
-		if es := append(append([]Edge{}, eq...), e2...); len(es) > 0 {
-			countG = append(countG, gate{f, es})
-		}
-	}
-	// hash test: bytes.Equal(ig.sighash, Topics[0])
-	var hashCall *ssa.Call
-	for _, ci := range reg.Calls() {
-		call, isCall := ci.(*ssa.Call)
-		if !isCall || calleeName(call) != "bytes.Equal" {
-			continue
-		}
-		a0, a1 := stripConv(call.Call.Args[0]), stripConv(call.Call.Args[1])
-		isSig := func(v ssa.Value) bool { return isLoadOfField(v, fSig) }
-		isTopic0 := func(v ssa.Value) bool {
-			s, idx, ok := elemOf(v)
-			if !ok {
+	gatesOf := func(g *ssa.Function) gateInfo {
+		reg := NewRegion(g)
+		aff := &affEnv{reg: reg}
+		// count test: len(Topics) == numIndexed + 1 in any arrangement (affine comparison)
+		isCountTest := func(b *ssa.BinOp) bool {
+			if b.Op != token.NEQ && b.Op != token.EQL {
 				return false
 			}
-			n, okc := constInt(idx)
-			return okc && n == 0 && isTopicsLoad(s)
-		}
-		if (isSig(a0) && isTopic0(a1)) || (isSig(a1) && isTopic0(a0)) {
-			hashCall = call
-			t, _ := boolEdges(call)
-			hashG = append(hashG, gate{call.Parent(), t})
-		}
-	}
-	// lift the gates to processLog
-	liftGate := func(gs []gate, isTestValue func(ssa.Value) bool) []Edge {
-		var out []Edge
-		for _, g := range gs {
-			if g.fn == pl {
-				out = append(out, g.ok...)
-				continue
-			}
-			cs, _ := reg.site[g.fn].(*ssa.Call)
-			if cs == nil || cs.Parent() != pl {
-				continue
-			}
-			// the helper returns true only if the test passed
-			implies := true
-			for _, r := range returnsOf(g.fn) {
-				vals := returnValues(r)
-				if len(vals) != 1 {
-					implies = false
-					break
+			d := aff.Of(b.X).sub(aff.Of(b.Y))
+			var kLen, kNum int64
+			nAtoms := 0
+			for a, k := range d.t {
+				if k == 0 {
+					continue
 				}
-				for _, lf := range phiLeaves(vals[0]) {
-					switch v := lf.Val.(type) {
-					case *ssa.Const:
-						if v.Value != nil && v.Value.String() == "true" && !guardedByEdges(g.fn, r, g.ok) {
-							implies = false
-						}
-					default:
-						if isTestValue != nil && isTestValue(lf.Val) {
-							continue // the result IS the test
-						}
-						if !guardedByEdges(g.fn, r, g.ok) {
-							implies = false
+				nAtoms++
+				if x, ok := aff.lens[a]; ok && isTopicsLoad(x) {
+					kLen = k
+				} else if v, ok := aff.vals[a]; ok && isLoadOfField(v, fNumIdx) {
+					kNum = k
+				}
+			}
+			return nAtoms == 2 && ((kLen == 1 && kNum == -1 && d.c == -1) || (kLen == -1 && kNum == 1 && d.c == 1))
+		}
+		type gate struct {
+			fn *ssa.Function
+			ok []Edge // edges (in fn) on which the test passed
+		}
+		var countG, hashG []gate
+		for _, f := range reg.Funcs() {
+			_, eq := cmpEdges(f, func(b *ssa.BinOp) bool { return b.Op == token.NEQ && isCountTest(b) })
+			e2, _ := cmpEdges(f, func(b *ssa.BinOp) bool { return b.Op == token.EQL && isCountTest(b) })
+			if es := append(append([]Edge{}, eq...), e2...); len(es) > 0 {
+				countG = append(countG, gate{f, es})
+			}
+		}
+		// hash test: bytes.Equal(ig.sighash, Topics[0])
+		var hashCall *ssa.Call
+		for _, ci := range reg.Calls() {
+			call, isCall := ci.(*ssa.Call)
+			if !isCall || calleeName(call) != "bytes.Equal" {
+				continue
+			}
+			a0, a1 := stripConv(call.Call.Args[0]), stripConv(call.Call.Args[1])
+			isSig := func(v ssa.Value) bool { return isLoadOfField(v, fSig) }
+			isTopic0 := func(v ssa.Value) bool {
+				s, idx, ok := elemOf(v)
+				if !ok {
+					return false
+				}
+				n, okc := constInt(idx)
+				return okc && n == 0 && isTopicsLoad(s)
+			}
+			if (isSig(a0) && isTopic0(a1)) || (isSig(a1) && isTopic0(a0)) {
+				hashCall = call
+				t, _ := boolEdges(call)
+				hashG = append(hashG, gate{call.Parent(), t})
+			}
+		}
+		// lift the gates to g
+		liftGate := func(gs []gate, isTestValue func(ssa.Value) bool) []Edge {
+			var out []Edge
+			for _, gt := range gs {
+				if gt.fn == g {
+					out = append(out, gt.ok...)
+					continue
+				}
+				cs, _ := reg.site[gt.fn].(*ssa.Call)
+				if cs == nil || cs.Parent() != g {
+					continue
+				}
+				// the helper returns true only if the test passed
+				implies := true
+				for _, r := range returnsOf(gt.fn) {
+					vals := returnValues(r)
+					if len(vals) != 1 {
+						implies = false
+						break
+					}
+					for _, lf := range phiLeaves(vals[0]) {
+						switch v := lf.Val.(type) {
+						case *ssa.Const:
+							if v.Value != nil && v.Value.String() == "true" && !guardedByEdges(gt.fn, r, gt.ok) {
+								implies = false
+							}
+						default:
+							if isTestValue != nil && isTestValue(lf.Val) {
+								// the result IS the test – evaluated behind whatever guards this return
+								continue
+							}
+							if !guardedByEdges(gt.fn, r, gt.ok) {
+								implies = false
+							}
 						}
 					}
 				}
+				if implies {
+					t, _ := boolEdges(cs)
+					out = append(out, t...)
+				}
 			}
-			if implies {
-				t, _ := boolEdges(cs)
-				out = append(out, t...)
+			return out
+		}
+		gi := gateInfo{hashCall: hashCall}
+		gi.countEq = liftGate(countG, nil)
+		gi.hashEq = liftGate(hashG, func(v ssa.Value) bool { return hashCall != nil && v == ssa.Value(hashCall) })
+		if hashCall != nil {
+			for _, gt := range countG {
+				if gt.fn == hashCall.Parent() && guardedByEdges(gt.fn, hashCall, gt.ok) {
+					gi.before = true
+				}
+			}
+			if !gi.before && reg.Lift(hashCall) != nil && len(gi.countEq) > 0 {
+				gi.before = guardedByEdges(g, reg.Lift(hashCall), gi.countEq)
 			}
 		}
-		return out
+		return gi
 	}
-	countEq := liftGate(countG, nil)
-	hashEq := liftGate(hashG, func(v ssa.Value) bool { return hashCall != nil && v == ssa.Value(hashCall) })
+	own := gatesOf(pl)
+	countEq, hashEq, hashCall := own.countEq, own.hashEq, own.hashCall
 	// the gate may also stand in front of processLog: every caller tests both before calling it
 	callerGated := false
 	if len(countEq) == 0 || len(hashEq) == 0 {
@@ -139,33 +162,8 @@ func propC13(c *Ctx) {
 		callerGated = len(callers) > 0
 		for _, cs := range callers {
 			g := cs.Parent()
-			_, eq := cmpEdges(g, func(b *ssa.BinOp) bool { return b.Op == token.NEQ && isCountTest(b) })
-			e2, _ := cmpEdges(g, func(b *ssa.BinOp) bool { return b.Op == token.EQL && isCountTest(b) })
-			cEq := append(append([]Edge{}, eq...), e2...)
-			var hEq []Edge
-			var hCall *ssa.Call
-			for _, ci := range callsIn(g) {
-				call, isCall := ci.(*ssa.Call)
-				if !isCall || calleeName(call) != "bytes.Equal" {
-					continue
-				}
-				a0, a1 := stripConv(call.Call.Args[0]), stripConv(call.Call.Args[1])
-				isSig := func(v ssa.Value) bool { return isLoadOfField(v, fSig) }
-				isTopic0 := func(v ssa.Value) bool {
-					s, idx, ok := elemOf(v)
-					if !ok {
-						return false
-					}
-					n, okc := constInt(idx)
-					return okc && n == 0 && isTopicsLoad(s)
-				}
-				if (isSig(a0) && isTopic0(a1)) || (isSig(a1) && isTopic0(a0)) {
-					hCall = call
-					t, _ := boolEdges(call)
-					hEq = append(hEq, t...)
-				}
-			}
-			if !(len(cEq) > 0 && len(hEq) > 0 && hCall != nil && guardedByEdges(g, cs, cEq) && guardedByEdges(g, cs, hEq) && guardedByEdges(g, hCall, cEq)) {
+			gi := gatesOf(g)
+			if !(len(gi.countEq) > 0 && len(gi.hashEq) > 0 && gi.hashCall != nil && gi.before && guardedByEdges(g, cs, gi.countEq) && guardedByEdges(g, cs, gi.hashEq)) {
 				callerGated = false
 			}
 		}
@@ -178,16 +176,7 @@ func propC13(c *Ctx) {
 		c.Check("R13.1", "processLog/hash-test-exists", pl.Pos(), hashCall != nil && len(hashEq) > 0, "Topics[0] is compared with the signature hash using bytes.Equal")
 	}
 	if hashCall != nil && !callerGated {
-		before := false
-		for _, g := range countG {
-			if g.fn == hashCall.Parent() && guardedByEdges(g.fn, hashCall, g.ok) {
-				before = true
-			}
-		}
-		if !before && reg.Lift(hashCall) != nil {
-			before = guardedByEdges(pl, reg.Lift(hashCall), countEq)
-		}
-		c.Check("R13.1", "processLog/count-before-topic0", hashCall.Pos(), before, "Topics[0] is read only after the count test passed (no index panic on an empty topic list)")
+		c.Check("R13.1", "processLog/count-before-topic0", hashCall.Pos(), own.before, "Topics[0] is read only after the count test passed (no index panic on an empty topic list)")
 	}
 	scan := w.Fn("dig", "(*Result).Scan")
 	dbt := w.Fn("dig", "dbtype")
